@@ -44,4 +44,15 @@ func init() {
 		},
 		Undecided: []string{"every accepted seed eventually reaches the output (liveness)", "absence of deadlock between stages", "Start/Stop lifecycle (sync.Once closure) is not under contract"},
 	}
+	propInfo["C11"] = PropInfo{
+		Explanation: "Item tree operations under contract (pkg/models): NewItem, AddChild (full view of the new children sequence, links, statuses; error paths pure; wfNode preserved for parent and child), _unsafeRemoveChild/RemoveChild (exactly the first child with the id removed, order of the others kept, links and wfNode kept, aliasing-faithful in-place append), GetChildren (fresh copy), SetStatus/SetError, IsSeed/IsChild/IsRedirection/HasChildren/HasRedirection/HasWork against their definitions, allChildrenCompleted (quantified definition via loop invariant), CheckConsistency (returning nil implies the per-node predicate wfLocal for the node and, through the recursive call whose contract is assumed, its children), markCompleted (recursive, own contract assumed at the recursive calls: [mono] only isGot nodes change and only to Completed, [local] a node is completed iff it isGot and no child still has work, [above-untouched]; the last two under the tree assumption isTree), CompleteAndCheck (result <=> seed has no work left; decision clause). DedupeItems: call-site obligations at both removal sites (same-url: a node is removed only while a node with the same URL stays recorded; leaf-only: the removed node has no children) plus the structural obligation that every RemoveChild call site carries them; the leaf-only obligations are refuted on the real code and recorded as known findings (replay: root->[x->[d], b->[c]] with url(d)=url(b) loses c).",
+		Assumptions: []string{
+			"A-tree (isTree): below a seed the item graph is a tree - a depth function grows by one along every child link and child entries are non-nil; used as antecedent of markCompleted/CompleteAndCheck clauses",
+			"termination of the recursions (finite trees)",
+			"(*URL).String is a function of the URL object (urlKey); determinism of canonicalisation is C09",
+			"flattenTree returns the nodes of the tree (opaque contract)",
+			"RemoveChild/_unsafeRemoveChild no-nil-entry precondition is a no-panic obligation and is accounted under C10, not here",
+		},
+		Undecided: []string{"global lemma `complete iff no node in the whole tree awaits work` (needs an inductive subtree view; only the per-node rule is proved)", "DedupeItems functional spec `exactly one node per URL` beyond the per-removal obligations", "GetNodesAtLevel / GetMaxDepth / Traverse / GetDepthWithoutRedirections are not yet under contract here (see C06)"},
+	}
 }
